@@ -136,7 +136,7 @@ def header(case, res):
         pw, ph = l + rw + r, t + rh + b
         frames = case["frames"]
         animated = frames > 1 and case.get("animate", True)
-        last = (frames - 1) if animated else 0
+        last = (frames - 1) if animated else (case.get("seek", 0) if frames > 1 else 0)
         inner = dict(inner="letter", last=65 + last, color=[0, 0, 0])
     else:
         padw, padh = case["pad_width"], case["pad_height"]
